@@ -786,7 +786,7 @@ func main() {
 	r := rng.New(*seed)
 	nNode, nFold, nCorpus, nBig := 1500, 200, 150, 4
 	if *tier == "thorough" {
-		nNode, nFold, nCorpus, nBig = 20000, 2000, 2500, 40
+		nNode, nFold, nCorpus, nBig = 15000, 1500, 1500, 20
 	}
 
 	// (a) merge nodes over static lists, both directions
@@ -823,7 +823,7 @@ func main() {
 		case big:
 			sh.n = r.Range(300, 1500)
 			if *tier == "thorough" {
-				sh.n = r.Range(1000, 6000)
+				sh.n = r.Range(1000, 4000)
 			}
 			sh.midSpan = r.Range(2, sh.n)
 			sh.alphabet = "abc"
